@@ -243,7 +243,7 @@ def run(chk):
         # callers of the HMAC function among the PRF entry points
         for outer in ("make_prf", "get_prf"):
             ob_ = p.method(AUTH, outer)
-            if ob_ is not None and ob_ is not hf and any(names.call_is(t, hf.path) for nb in p.nested(ob_.path) for _bb, t in nb.calls()):
+            if ob_ is not None and ob_ is not hf and any(names.call_is(t, hf.path) for nb in p.nested_of(ob_) for _bb, t in nb.calls()):
                 chain.append((outer, hf.path, hf))
     chk.ob("R3 uv argument", "R3|uv-chain", len(chain) >= 4, AUTH, "%d links between the ceremony's extension step and the HMAC function (make/get_extensions → make/get_prf → HMAC)" % len(chain))
     for outer, inner, ib in chain:
@@ -258,7 +258,7 @@ def run(chk):
         chk.touched(b)
         found = False
         val = None
-        for nb in p.nested(b.path):
+        for nb in p.nested_of(b):
             for bb, t in nb.calls():
                 if names.call_is(t, inner):
                     T = flow.Terms(p, nb)
@@ -269,7 +269,7 @@ def run(chk):
                         for b2, s2 in b.stmts():
                             pass
                         # find the closure aggregate in any enclosing body
-                        for eb in p.nested(b.path):
+                        for eb in p.nested_of(b):
                             for b3, s3 in eb.stmts():
                                 if s3["k"] == "assign" and s3["rv"]["k"] == "agg" and s3["rv"].get("def") == nb.path:
                                     Te = flow.Terms(p, eb)
@@ -332,7 +332,7 @@ def run(chk):
         ai_ = (param_roles(ss_, cid="[u8]")["cid"] or 1) - 1 if ss_ is not None else 0
         ok = bool(cs) and ro_gp["cid"] is not None and flow.simplify_term(T.operand(cs[0][1]["args"][ai_], cs[0][0], "t")) == ("param", ro_gp["cid"])
         okc = False
-        for nb in p.nested(ge.path):
+        for nb in p.nested_of(ge):
             for bb, t in nb.calls():
                 if names.call_is(t, "Authenticator::get_prf"):
                     v = flow.simplify_term(flow.Terms(p, nb).operand(t["args"][(ro_gp["cid"] or 2) - 1], bb, "t"))
@@ -380,7 +380,7 @@ def run(chk):
             bb, i, rv = ag[0]
             stored = flow.simplify_term(T.operand(rv["ops"][rv["fields"].index("credential")], bb, i))
         given = None
-        for nb in p.nested(me.path):
+        for nb in p.nested_of(me):
             for bb, t in nb.calls():
                 if names.call_is(t, "Authenticator::make_prf"):
                     v = flow.simplify_term(flow.Terms(p, nb).operand(t["args"][1], bb, "t"))
@@ -401,7 +401,7 @@ def run(chk):
                         if idx is None:
                             break
                         parent = None
-                        for eb in p.nested(me.path):
+                        for eb in p.nested_of(me):
                             for b3, s3 in eb.stmts():
                                 if s3["k"] == "assign" and s3["rv"]["k"] == "agg" and s3["rv"].get("def") == curb.path:
                                     parent = (eb, b3, s3)
@@ -611,10 +611,10 @@ def run(chk):
                 polw = "per-key predicate has unrecognised parts: %s" % [str(k)[:100] for k, v in leaves.items() if v is None][:2]
         # undecodable key: Bytes::try_from error mapped to SyntaxError
         undec = False
-        for nb in p.nested(gc.path):
+        for nb in p.nested_of(gc):
             if find_aggs(nb, "WebauthnError", "SyntaxError") and nb is not gc:
                 undec = True
-        has_tf = any(names.call_is(t3, "TryFrom::try_from") and "Bytes" in (t3.get("callee_full") or "") for nb in p.nested(gc.path) for b3, t3 in nb.calls())
+        has_tf = any(names.call_is(t3, "TryFrom::try_from") and "Bytes" in (t3.get("callee_full") or "") for nb in p.nested_of(gc) for b3, t3 in nb.calls())
         chk.ob("R6 client validation", "R6|authentication|empty-or-unlisted-key", oks, where(gc), "%s — must be equivalent to 'some key is empty or unlisted': %s" % (polw, oks))
         chk.ob("R6 client validation", "R6|authentication|undecodable-key", undec and has_tf, where(gc), "Bytes::try_from(key) failure maps to SyntaxError: %s" % (undec and has_tf))
     chk.floor("R1", 4)
